@@ -1,4 +1,5 @@
 SPECIFICATION SSpec
-CONSTANTS MaxLen = 6
+CONSTANTS BoundedDepth = TRUE
+ MaxLen = 6
  Values = {1, 2, 3}
-INVARIANTS PostOK ScanInRange CallsOK BagKept Terminates
+INVARIANTS DepthLog PostOK ScanInRange CallsOK BagKept Terminates
